@@ -1,8 +1,32 @@
-import GceTcb.Base.Line
-/- Driver handler for stream `c15` (stub: replaced when the property's model lands). -/
+import GceTcb.Drive.EndorseIO
+import GceTcb.Model.VirtualFirmware
+/- Driver handler for stream `c15` (endorse.VirtualFirmware as an effect log over the doubles). -/
 namespace GceTcb.Drive.C15
-open GceTcb
+open GceTcb GceTcb.Endorse GceTcb.Commit GceTcb.VF GceTcb.Drive.IO
 
-def handle (_f : Fields) : String := "unimplemented"
+def showEff : Eff → String
+  | .caPrimary => "ca.primary"
+  | .caCertificate _ => "ca.cert"
+  | .caBundle _ => "ca.bundle"
+  | .sign _ _ => "sign"
+  | .vcs i ev => s!"v{i}:{showEv ev}"
+  | .stdout l => "out:" ++ l.replace " " "_"
+
+def parseVcs (s : String) : Option (List Attempt) := if s == "-" then none else some (parseScript s)
+
+def parseVcss (s : String) : List (List Attempt) :=
+  if s == "" then [] else (s.splitOn "^").map parseScript
+
+def handle (f : Fields) : String :=
+  match f.get "op" with
+  | "vf" =>
+    let c := { parseCtx f with svsmMeasurement := f.bytes "svsm_m" }
+    let cfg := { parseCfg f with scrtm := scrtmOf c, imageName := f.get "imgname" }
+    let fl : Flags := ⟨f.bool "mo", (match c.snp with | some r => r.launchVmsas | none => 0), f.int "budget", cfg⟩
+    let r := virtualFirmware false (mkPrims f) genTables c (parseKeys f) (parseTsField (f.get "ts")) fl
+      (parseVcs (f.get "vcs")) (parseVcss (f.get "vcss"))
+    let res := match r.result with | .ok _ => "ok" | .err _ => "err" | .panic _ => "panic"
+    s!"res={res} eff={",".intercalate (r.effects.map showEff)}"
+  | _ => "bad-op"
 
 end GceTcb.Drive.C15
